@@ -11,7 +11,8 @@ from vlib import ToolError, log
 # Layer M runs attached to a property: (family, N, L, stride quick, stride thorough, use_shortcuts, invariants)
 MODEL_PLAN = {
     "C01": [("tri", 2, 840, 24, 1, True, ["M_ResultRegion", "M_EventBound", "M_NoPanic"]), ("pair", 2, 840, 4000, 150, True, ["M_ResultRegion", "M_NoPanic"])],
-    "C02": [("nest2", 2, 840, 6, 1, True, ["M_Nesting", "M_ResultRegion", "M_NoPanic"]), ("nest", 3, 1, 60, 4, True, ["M_Nesting", "M_NoPanic"])],
+    "C02": [("nest2", 2, 840, 6, 1, True, ["M_Nesting", "M_ResultRegion", "M_NoPanic"]), ("nest", 3, 1, 60, 4, True, ["M_Nesting", "M_NoPanic"]),
+            ("star3", 2, 840, 30, 2, True, ["M_Nesting", "M_ResultRegion", "M_Provenance", "M_NoPanic"])],   # three rings through one least vertex, also as holes
     "C03": [("quad", 2, 840, 120, 8, True, ["M_EventBound", "M_NoPanic"]), ("pairB", 2, 840, 3000, 300, True, ["M_EventBound", "M_NoPanic"])],
     "C04": [("quad", 2, 840, 150, 12, True, ["M_Provenance", "M_NoPanic"])],
     "C09": [("tri", 2, 840, 40, 3, False, ["M_ResultRegion", "M_NoPanic"]), ("nest2", 2, 840, 12, 2, False, ["M_ResultRegion", "M_Nesting"])],
@@ -21,8 +22,8 @@ PROPS = ["C01", "C02", "C03", "C04", "C05", "C06", "C07", "C08", "C09", "C10", "
 
 EXACT = "cx,rect,cxmix,cxshift,rectw,cxabut,cxsub,frames"
 ROUND = "aff-cx,aff-cxmix,aff-cxshift,aff-rect,aff-cxabut,aff-cxsub,lat"
-ALLF = EXACT + "," + ROUND
-SHARED = "cx,rect,cxabut,cxsub,cxshift,cxmix,aff-cx,rectw,frames,aff-cxabut,frames,lat"      # weighted towards shared boundary segments
+ALLF = EXACT + ",pinch," + ROUND      # "pinch" (many rings through one vertex) is exact too, but has no degenerate variants (kind deg)
+SHARED = "cx,rect,cxabut,cxsub,cxshift,cxmix,aff-cx,rectw,frames,aff-cxabut,frames,lat,pinch"      # weighted towards shared boundary segments
 
 
 def ops(kind, fams, count, kmax=3, max_edges=120):
@@ -217,6 +218,34 @@ def run(prop, tier, seed, t0):
         fails_by_step.append((label, sessions, res["lawfails"]))
         per_step.append({"step": label, "laws": sorted(laws), "onlyF": onlyf, "profile": profile, "sessions": len(sessions),
                          "tlc_distinct_states": res["distinct"], "tlc_seconds": round(res["seconds"], 1)})
+    layer_m = []
+    all_laws = set()
+    for (_, lw, _, _, _) in steps:
+        all_laws |= lw
+    for mi, (fam, n, l, sq, st, sc, invs) in enumerate(MODEL_PLAN.get(prop, [])):
+        stride = sq if tier == "quick" else st
+        mwd = os.path.join(vlib.OUT, prop, "model-%d-%s" % (mi, fam))
+        r = model_sweep.model_and_replay(prop, mwd, family=fam, n=n, l=l, stride=stride,
+                                         offset=(seed * 7 + mi) % stride, use_shortcuts=sc, invs=invs + ["M_StatusLineSorted"], replay=sc, timeout=10000)
+        inputs = r.pop("inputs")
+        r.update({"family": fam, "lattice": n + 1, "scale": l, "stride": stride, "use_shortcuts": sc, "invariants": invs})
+        if inputs:
+            # the model's inputs, answered by the real code, judged by the contract (Layer P)
+            src = os.path.join(mwd, "inputs.ndjson")
+            trace = os.path.join(mwd, "trace.ndjson")
+            r["sessions_to_contract"] = model_sweep.inputs_as_sessions(inputs, src, fam)
+            vlib.vh(["rerun", "--file", src, "--sid0", 1], trace)
+            sessions = vlib.load_sessions(trace)
+            res = vlib.validate_ops(trace, all_laws, "any", os.path.join(mwd, "contract"))
+            log("[%s] Layer M inputs (%s) answered by the real code, judged by the contract: %d sessions, %d states, %d law failures, TLC %.1fs" % (
+                prop, fam, len(sessions), res["distinct"], len(res["lawfails"]), res["seconds"]))
+            fails_by_step.append(("layerM-" + fam, sessions, res["lawfails"]))
+            all_sessions += sessions
+            tot_gen += res["generated"]
+            tot_dist += res["distinct"]
+        layer_m.append(r)
+        tot_gen += r["transitions"]
+        tot_dist += r["states"]
     nviol, nknown = report(prop, fails_by_step, known)
     abstract = None
     if prop in ("C05", "C06", "C07", "C09", "C11", "C12"):
@@ -228,15 +257,6 @@ def run(prop, tier, seed, t0):
         abstract = {"states": ra["distinct"], "seconds": round(dta, 1)}
         tot_gen += ra["generated"]
         tot_dist += ra["distinct"]
-    layer_m = []
-    for mi, (fam, n, l, sq, st, sc, invs) in enumerate(MODEL_PLAN.get(prop, [])):
-        stride = sq if tier == "quick" else st
-        r = model_sweep.model_and_replay(prop, os.path.join(vlib.OUT, prop, "model-%d-%s" % (mi, fam)), family=fam, n=n, l=l, stride=stride,
-                                         offset=(seed * 7 + mi) % stride, use_shortcuts=sc, invs=invs + ["M_StatusLineSorted"], replay=sc, timeout=10000)
-        r.update({"family": fam, "lattice": n + 1, "scale": l, "stride": stride, "use_shortcuts": sc, "invariants": invs})
-        layer_m.append(r)
-        tot_gen += r["transitions"]
-        tot_dist += r["states"]
     big_events = []
     if prop == "C03":
         # structured large inputs in child processes: must return (no abort / panic / budget overrun)
